@@ -640,6 +640,9 @@ func TestC14(t *testing.T) {
 	r.Cases(n, 0, func(idx int) {
 		sc := genCase(lib.Rng("C14/script", uint64(idx)), idx)
 		ts := time.Now()
+		if os.Getenv("VERIF_DUMP_SCRIPT") != "" {
+			fmt.Printf("script %d: %s\n", idx, scriptString(sc.Ops, 100000))
+		}
 		runScript(r, idx, sc, tornPerScript)
 		fmt.Printf("script %d %s ops=%d took %.1fs (information only)\n", idx, sc.Profile, len(sc.Ops), time.Since(ts).Seconds())
 	})
